@@ -7,7 +7,7 @@ from .. import blocks as B
 
 ID = "C03"
 LEAN_MODULE = "BibVerif.Props.C03"
-RULE = ("corpus; every string of <= k tokens over { } \" , = NL \\ @a a SP behind 6 block prefixes "
+RULE = ("every case also: raw texts, start lines and field lines of what parse_string returns (empty and default stack) are the splitter's (common.entry_points_agree); corpus (incl. documents whose values the default stack rewrites); every string of <= k tokens over { } \" , = NL \\ @a a SP behind 6 block prefixes "
         "(k=4 quick, 5 thorough: exhaustive for that alphabet); every string of <= 4 (thorough 5) tokens over Unicode line boundaries / whitespace that are not the newline mark "
         "(FF, VT, lone CR, NEL, U+2028, FS, NBSP) mixed with newlines, text and blocks; random documents with CRLF, backslash-newline, "
         "several blocks per line, non-ASCII text. Compared: class, start_line, raw, keys, fields with lines, "
